@@ -197,12 +197,47 @@ def impl(case):
     return C.call(run)
 
 
-def _near_tie(spec, coords):
+def _knn_tie(es, ns, k, queries):
+    """True if for some query the k-th and (k+1)-th nearest data points are at exactly the same distance."""
+    pts = [(float(x), float(y)) for x, y in zip(es, ns)]
+    for qx, qy in queries:
+        d = sorted((float(qx) - x) ** 2 + (float(qy) - y) ** 2 for x, y in pts)
+        if k < len(d) and abs(d[k - 1] - d[k]) <= 1e-9 * max(1.0, d[k]):
+            return True      # (near) tie: intermediate coordinates are floats, the model's are exact
+    return False
+
+
+def _near_tie(spec, coords, data=None, weights=None, q=None):
+    """True if some step of the composition meets an input on which float and exact arithmetic may legitimately differ:
+    a point on a block edge / a size rounding tie for block steps, a distance tie for neighbour steps — evaluated on the
+    coordinates that actually reach the step (the arguments are threaded through the real steps)."""
     k = spec[0]
     if k in ("block_reduce", "block_mean"):
-        return B.near_tie(coords[0], coords[1], spec[1], spec[2], spec[3], spec[4])
-    if k in ("chain", "vector"):
-        return any(_near_tie(s, coords) for s in spec[1])
+        return B.near_tie(list(np.ravel(coords[0])), list(np.ravel(coords[1])), spec[1], spec[2], spec[3], spec[4])
+    if k == "knn":
+        es, ns = list(np.ravel(coords[0])), list(np.ravel(coords[1]))
+        queries = list(zip(es, ns)) + ([] if q is None else list(zip(q[0], q[1])))
+        return _knn_tie(es, ns, spec[1], queries)
+    if k == "vector":
+        return any(_near_tie(s, coords, None if data is None else [data[i]], None if weights is None else [weights[i]], q)
+                   for i, s in enumerate(spec[1]))
+    if k == "chain":
+        if data is None:
+            return any(_near_tie(s, coords, q=q) for s in spec[1])
+        with warnings.catch_warnings():
+            warnings.simplefilter("ignore")
+            cs, d, w = _args(coords, data, weights)
+            args = (cs, d, w)
+            for s in spec[1]:
+                cur = [np.ravel(c).tolist() for c in args[0]]
+                dd = args[1] if isinstance(args[1], tuple) else (args[1],)
+                ww = None if (len(args) < 3 or args[2] is None) else (args[2] if isinstance(args[2], tuple) else (args[2],))
+                if _near_tie(s, cur, [np.ravel(x).tolist() for x in dd], None if ww is None else [np.ravel(x).tolist() for x in ww], q):
+                    return True
+                try:
+                    args = build(s).filter(*args)
+                except Exception:  # noqa: BLE001
+                    return False
     return False
 
 
@@ -221,7 +256,7 @@ def compare(case, io, mo):
     r = C.std_compare(io[0], pm, tol=1e-7)
     if r == "ok":
         r = C.std_compare(io[1], fm, tol=1e-7)
-    if r != "ok" and _near_tie(case["args"][0], case["args"][1]):
+    if r != "ok" and _near_tie(case["args"][0], case["args"][1], case["args"][2], case["args"][3], case["args"][4]):
         return "amb"
     return r
 
@@ -238,7 +273,7 @@ def oracle(case, io):
     spec, coords, data, weights, q = case["args"]
     if C.is_err(io):
         return "composition failed: " + io[1]
-    if _near_tie(spec, coords):
+    if _near_tie(spec, coords, data, weights, q):
         return None
     with warnings.catch_warnings():
         warnings.simplefilter("ignore")
